@@ -203,7 +203,9 @@ func (d decoder) unmarshalMessage(m protoreflect.Message, checkDelims bool) erro
 		// Handle unknown fields.
 		if fd == nil {
 			if d.opts.DiscardUnknown || messageDesc.ReservedNames().Has(name) {
-				d.skipValue()
+				if err := d.skipValue(); err != nil {
+					return err
+				}
 				continue
 			}
 			return d.newError(tok.Pos(), "unknown field: %v", tok.RawString())
@@ -523,7 +525,9 @@ Loop:
 				if !d.opts.DiscardUnknown {
 					return d.newError(tok.Pos(), "unknown map entry field %q", tok.RawString())
 				}
-				d.skipValue()
+				if err := d.skipValue(); err != nil {
+					return err
+				}
 				continue Loop
 			}
 			// Continue below.
@@ -565,7 +569,9 @@ Loop:
 			if !d.opts.DiscardUnknown {
 				return d.newError(tok.Pos(), "unknown map entry field %q", name)
 			}
-			d.skipValue()
+			if err := d.skipValue(); err != nil {
+				return err
+			}
 		}
 	}
 
@@ -768,6 +774,9 @@ func (d decoder) skipValue() error {
 // skipMessageValue makes the decoder parse and skip over all fields in a
 // message. It assumes that the previous read type is MessageOpen.
 func (d decoder) skipMessageValue() error {
+	if d.opts.RecursionLimit--; d.opts.RecursionLimit < 0 {
+		return errRecursionDepth
+	}
 	for {
 		tok, err := d.Read()
 		if err != nil {
